@@ -27,9 +27,12 @@ def shards(tier):
         return [dict(kind='mle', n=192, parts=12, timeout=900, budget_s=90),
                 dict(kind='mle', n=48, parts=4, timeout=900, variant='asan',
                      start=100000)]
-    return [dict(kind='mle', n=12000, parts=12, timeout=3400),
+    # the pure-Python estimator needs up to minutes on slowly converging
+    # inputs: the thorough tier is bounded by a time budget per worker (cases
+    # not reached are reported as cases_skipped_budget in the evidence)
+    return [dict(kind='mle', n=12000, parts=12, timeout=3400, budget_s=780),
             dict(kind='mle', n=2400, parts=4, timeout=3400, variant='asan',
-                 start=100000)]
+                 start=100000, budget_s=780)]
 
 
 def setup(ctx):
